@@ -1422,8 +1422,11 @@ namespace hgraph::ts_data_plan_factory_detail
 
             [[nodiscard]] static bool size_has_current_value(const void *context, const void *memory) noexcept
             {
-                static_cast<void>(context);
-                return window_tracking(context, memory)->last_modified_time != MIN_DT;
+                // Valid only once min_period elements are held (see the
+                // installation comment above): below the minimum a consumer
+                // sees an invalid input, not a short window.
+                return window_tracking(context, memory)->last_modified_time != MIN_DT &&
+                       window_size(context, memory) >= layout_for(context).min_period;
             }
         };
 
